@@ -230,6 +230,15 @@ def consecVerdict (isConsec : Bool) (cfg : LiveCfg) (openBefore : Bool) (cc thr 
     else if (notifs ro.emits).contains true then some "consecutive-errors opener: opened on a call that is neither a failure nor a timeout" else none
   | _ => none
 
+/-- C04 for a single caller: a limit of 0 refuses, the function refused is not invoked, the gauges read zero once the
+    call has returned.  `cfgRun` = settings in force when the run step was admitted, `cfgFb` = when the fallback was -/
+def verdictC04 (cfgRun cfgFb : LiveCfg) (ro : ExecObs) : Option String :=
+  if cfgRun.disabled then none
+  else if ro.conc != 0 ∨ ro.concFb != 0 then some "a gauge does not read zero after the call returned"
+  else if cfgRun.maxConc == 0 ∧ ro.runCalls ≠ 0 then some "run function invoked although Execution.MaxConcurrentRequests = 0"
+  else if cfgFb.fbMaxConc == 0 ∧ ro.fbCalls ≠ 0 then some "fallback invoked although Fallback.MaxConcurrentRequests = 0 was in force"
+  else none
+
 def gateVerdict (e : SpecC16.Epoch) (g : Option (Int × Bool)) : Option String :=
   g.bind fun (t, b) => (e.verdict (.check t) (.bool b)).map fun m => "half-open gate: " ++ m
 
@@ -261,11 +270,15 @@ partial def runCircuitOps (fresh : OState × CState × SpecC03.Book) (ck : Close
         let adm := admission cfgSpec ck rb.openBefore ans
         let pv := ans.prevent
         -- `mid=<key>:<value>`: the run function itself reconfigures the circuit while it runs (CircuitMid.lean)
-        let midKV : Option (String × String) := (kvGet kvs "mid").bind fun v => match v.splitOn ":" with | [k, x] => some (k, x) | _ => none
-        let mid : Option LiveCfg := midKV.map fun kv => parseCfg [kv] c.cfg
+        let midKVs : List (String × String) := match kvGet kvs "mid" with
+          | some v => (v.splitOn ",").filterMap fun kv => match kv.splitOn ":" with | [k, x] => some (k, x) | _ => none
+          | none => []
+        let midKV : Option (String × String) := midKVs.head?
+        let mid : Option LiveCfg := if midKVs.isEmpty then none else some (parseCfg midKVs c.cfg)
         let (c', obs, res) := executeMid openerI closerI c op.ctx op.run op.fb mid
         let mo := mkObs c' obs res op
-        let midOnlyTimeout := match midKV with | some (k, _) => k == "to" | none => true
+        let midOnlyTimeout := midKVs.all fun kv => kv.1 == "to"
+        let _ := midKV
         let (spec, rb') := match parseObs op real with
           | none =>
             -- C11: "without ... panic": a panic that is not the one the scripted run function / fallback raised
@@ -276,12 +289,12 @@ partial def runCircuitOps (fresh : OState × CState × SpecC03.Book) (ck : Close
             -- read AFTER the function returned are evaluated, under the new settings
             if !midOnlyTimeout then
               let cfgNew := if ro.runCalls != 0 then (mid.getD cfgSpec) else cfgSpec
-              (joinVerdicts [("C09", verdictC09 cfgNew rb.lastNotif ro.emits ro.openAfter ro.fanOk),
+              (joinVerdicts [("C04", verdictC04 cfgSpec cfgNew ro), ("C09", verdictC09 cfgNew rb.lastNotif ro.emits ro.openAfter ro.fanOk),
                 ("C12", (verdictC12 ro.emits ro.readings).orElse fun _ => verdictC12o ro.emits ro.readings),
                 ("C03", (gateVerdict rb.ep (gateObservation ck cfgSpec rb.openBefore op ro)).orElse fun _ => if ck == CloserKind.hystrix then SpecC03.verdictExec rb.c03 cfgNew rb.openBefore ro else none)],
                { c03 := rb.c03.afterExec rb.openBefore ro, cc := consecAfter rb.cc ro.emits, thr := rb.thr, ep := epAfterExec rb.ep (gateObservation ck cfgSpec rb.openBefore op ro) ro.emits, openBefore := ro.openAfter, lastNotif := ((notifs ro.emits).getLast?).orElse fun _ => rb.lastNotif, conc := ro.conc, concFb := ro.concFb })
             else
-            (joinVerdicts [("C01", verdictC01 cfgSpec adm pv op ro), ("C05", verdictC05 cfgSpec adm pv op ro),
+            (joinVerdicts [("C04", verdictC04 cfgSpec cfgSpec ro), ("C01", verdictC01 cfgSpec adm pv op ro), ("C05", verdictC05 cfgSpec adm pv op ro),
               ("C06", verdictC06 cfgSpec op ro), ("C02", (verdictC02 cfgSpec op ro).orElse fun _ => consecVerdict isConsec cfgSpec rb.openBefore rb.cc rb.thr ro), ("C07", verdictC07 cfgSpec op ro), ("C08", verdictC08 cfgSpec rb.openBefore pv op ro),
               ("C09", verdictC09 cfgSpec rb.lastNotif ro.emits ro.openAfter ro.fanOk),
               ("C10", verdictC10 cfgSpec rb.openBefore rb.conc rb.concFb op ro), ("C12", (verdictC12 ro.emits ro.readings).orElse fun _ => verdictC12o ro.emits ro.readings),
